@@ -726,17 +726,17 @@ func (a *Analysis) checkProgress(fn *ssa.Function, l *cfgutil.Loop, inv *state, 
 	up := false
 	switch bo.Op {
 	case token.LSS, token.LEQ:
-		ph, _ = bo.X.(*ssa.Phi)
+		ph = phiOf(bo.X)
 		up = true
 		if ph == nil {
-			ph, _ = bo.Y.(*ssa.Phi)
+			ph = phiOf(bo.Y)
 			up = false
 		}
 	case token.GTR, token.GEQ:
-		ph, _ = bo.X.(*ssa.Phi)
+		ph = phiOf(bo.X)
 		up = false
 		if ph == nil {
-			ph, _ = bo.Y.(*ssa.Phi)
+			ph = phiOf(bo.Y)
 			up = true
 		}
 	}
@@ -1258,4 +1258,19 @@ func opName(ins ssa.Instruction) string {
 		}
 	}
 	return strings.TrimSpace(ins.String())
+}
+
+// phiOf: v is a phi, or phi + constant (the pre-incremented index of go/ssa's range loops).
+func phiOf(v ssa.Value) *ssa.Phi {
+	if p, ok := v.(*ssa.Phi); ok {
+		return p
+	}
+	if bo, ok := v.(*ssa.BinOp); ok && bo.Op == token.ADD {
+		if p, ok := bo.X.(*ssa.Phi); ok {
+			if _, isC := constInt(bo.Y); isC {
+				return p
+			}
+		}
+	}
+	return nil
 }
